@@ -1202,8 +1202,11 @@ class Evaluator:
             return Cond("sym", "pat(%s)==%s" % (vkey(v), pat.get("int", pat.get("dbg")))), binds
         if k == "Range":
             if isinstance(v, Bits):
-                hi = pat["hi"] if pat["incl"] else pat["hi"] - 1
-                return mkin(v, pat["lo"], hi), binds
+                # half-open patterns (`..=END`, `START..`) have no integer on the open side
+                lo_ = pat.get("lo") if isinstance(pat.get("lo"), int) else 0
+                hi_ = pat.get("hi") if isinstance(pat.get("hi"), int) else (1 << v.w) - 1 + (0 if pat.get("incl") else 1)
+                hi = hi_ if pat["incl"] else hi_ - 1
+                return mkin(v, lo_, hi), binds
         if k == "Leaf":
             # tuple / struct pattern: the conjunction of its refutable sub-patterns (none for `()` or plain bindings)
             self.bind(pat, v, binds)
